@@ -242,7 +242,11 @@ class Component( ComponentLevel7 ):
       parent._dsl.upblk_reads[blk].add( eval(obj_name) )
 
     for blk, obj_name in provided_upblk_writes:
-      parent._dsl.upblk_writes[blk].add( eval(obj_name) )
+      written = eval(obj_name)
+      parent._dsl.upblk_writes[blk].add( written )
+      # A signal written by an update_ff block is a register
+      if blk in parent._dsl.update_ff:
+        written._dsl.needs_double_buffer = True
 
     for blk, obj_name in provided_upblk_calls:
       parent._dsl.upblk_calls[blk].add( eval(obj_name) )
